@@ -6,6 +6,16 @@ use std::alloc::{GlobalAlloc, Layout, System};
 use std::cell::Cell;
 
 pub const REFUSE_ABOVE: usize = 8 << 30;
+/// adjustable limit for a single request (a check that only ever handles small inputs lowers it, so that a
+/// reservation sized by an untrusted header field is an attributable abort and not a silent multi-GiB mapping)
+static SINGLE_CAP: std::sync::atomic::AtomicUsize = std::sync::atomic::AtomicUsize::new(REFUSE_ABOVE);
+pub fn set_single_request_cap(n: usize) {
+    SINGLE_CAP.store(n, std::sync::atomic::Ordering::Relaxed);
+}
+#[inline]
+fn cap() -> usize {
+    SINGLE_CAP.load(std::sync::atomic::Ordering::Relaxed)
+}
 
 thread_local! {
     static LIVE: Cell<isize> = const { Cell::new(0) };
@@ -31,7 +41,7 @@ fn add(n: isize) {
 
 unsafe impl GlobalAlloc for Counting {
     unsafe fn alloc(&self, l: Layout) -> *mut u8 {
-        if l.size() > REFUSE_ABOVE {
+        if l.size() > cap() {
             return std::ptr::null_mut();
         }
         let p = System.alloc(l);
@@ -41,7 +51,7 @@ unsafe impl GlobalAlloc for Counting {
         p
     }
     unsafe fn alloc_zeroed(&self, l: Layout) -> *mut u8 {
-        if l.size() > REFUSE_ABOVE {
+        if l.size() > cap() {
             return std::ptr::null_mut();
         }
         let p = System.alloc_zeroed(l);
@@ -55,7 +65,7 @@ unsafe impl GlobalAlloc for Counting {
         add(-(l.size() as isize));
     }
     unsafe fn realloc(&self, p: *mut u8, l: Layout, new: usize) -> *mut u8 {
-        if new > REFUSE_ABOVE {
+        if new > cap() {
             return std::ptr::null_mut();
         }
         let q = System.realloc(p, l, new);
